@@ -606,7 +606,9 @@ def _parse_transf_v33(raw, system, max_bus):
                          'bus2': new_bus,
                          'u': data[0][11],
                          'Sn': system.config.mva,  # star impedances are in pu on the system base
-                         'b': data[0][8],
+                         # magnetizing admittance `MAG1 + j MAG2` is a shunt at bus I (in front of the tap of winding 1)
+                         'g1': data[0][7] * data[2][0] ** 2 if i == 0 else 0.0,
+                         'b1': data[0][8] * data[2][0] ** 2 if i == 0 else 0.0,
                          'r': r[i],
                          'x': x[i],
                          'tap': data[2+i][0],
